@@ -201,8 +201,22 @@ func (c *Check) withdrawAddressSet(rule string) {
 			okKey := len(k) == 1 && k[0].String() == fmt.Sprintf("(.%s.Owner %s)", en.Msg, en.MsgArg)
 			okVal := e.Val != nil && stripConv(stripSpread(e.Val)).ContainsOp("."+en.Msg+".WithdrawAddress")
 			c.req(e.Op == "Set" && okKey && okVal, rule, effConstruct(en.Msg, e)+"#args", e.Pos, "the message's WithdrawAddress is stored under the message's Owner: key "+fmtTerms(k)+" value "+shortTerm(e.Val))
-			c.req(e.Must && len(e.Guards) == 0, rule, effConstruct(en.Msg, e)+"#unconditional", e.Pos,
-				"the address is stored on every committed path of the handler, under no condition"+condStr(len(e.Guards) > 0, ": guarded by "+strings.Join(e.Guards.Sorted(), " ∧ ")))
+			// a guard that repeats what the message's own ValidateBasic has established is no condition (A-SDK: it ran before)
+			var extra []string
+			vbFacts := FactSet{}
+			if vb := c.P.FuncNamed("types." + en.Msg + ".ValidateBasic"); vb != nil {
+				for _, fa := range c.closeFacts(c.P.SummaryOf(vb).SuccessFacts) {
+					vbFacts.Add(Fact{T: fa.T.Subst(map[string]*Term{"Precv": atom(en.MsgArg)}), Neg: fa.Neg})
+				}
+			}
+			for _, gf := range e.Guards {
+				if !vbFacts.Has(gf) {
+					extra = append(extra, gf.String())
+				}
+			}
+			sort.Strings(extra)
+			c.req(e.Must && len(extra) == 0, rule, effConstruct(en.Msg, e)+"#unconditional", e.Pos,
+				"the address is stored on every committed path of the handler, under no condition beyond the message's own stateless validation"+condStr(len(extra) > 0, ": guarded by "+strings.Join(extra, " ∧ ")))
 		}
 	}
 	c.req(n == 1, rule, "MsgSetWithdrawAddress#store", token.NoPos, fmt.Sprintf("%d store of the withdrawal address by its message handler", n))
